@@ -88,5 +88,5 @@ TRUSTED = ["Verus 0.2026.09.13 + bundled Z3", "compare_rows abstracted as an uni
            "rewrites R3 (Arc<dyn Array> -> ArrayRef), R13 (closure expression -> assumed prelude fn)"]
 ASSUMPTIONS = ["split points strictly increasing (enforced by validate_range_split_points at construction; not re-verified here)", "indices.len() == split_points.len()+1 (new_range_partitioner)", "batch rows <= u32::MAX",
                "on Err (row extraction / comparison failure) nothing is promised"]
-NOT_COVERED = ["channels, spilling, early drop, order-preserving merge (concurrency / I/O)", "hash values (C12)", "round-robin arm of partition_iter and partition_grouped_take (inside Arrow-heavy functions)", "RangeExpr::evaluate body beyond the syntactic same-callee check"]
+NOT_COVERED = ["channels, spilling, early drop, order-preserving merge (concurrency / I/O)", "hash values (C12)", "round-robin arm of partition_iter (kani-compiler ICE rvalue.rs:1009 on the function) and partition_grouped_take (Arrow take/slice)", "RangeExpr::evaluate body beyond the syntactic same-callee check"]
 EXPLANATION = "Routing decision of range repartitioning proved: partition id = number of split points <= row; every row of a batch lands exactly once in the bucket of its partition id (hash routing: see C11)."
